@@ -142,9 +142,15 @@ def charFromU32 (n : Nat) : Option Char :=
 def asciiLower (c : Char) : Char := if 'A' ≤ c ∧ c ≤ 'Z' then Char.ofNat (c.toNat + 32) else c
 def asciiUpper (c : Char) : Char := if 'a' ≤ c ∧ c ≤ 'z' then Char.ofNat (c.toNat - 32) else c
 
+/-- `join`: the characters with the delimiter between them -/
+def joinCharsL (d : List Char) : List Char → List Char
+  | [] => []
+  | [c] => [c]
+  | c :: rest => c :: (d ++ joinCharsL d rest)
+
 /-! ## UTF-8 -/
 
-def utf8Bytes (s : String) : List UInt8 := s.toUTF8.toList
+def utf8Bytes (s : String) : List UInt8 := s.toUTF8.data.toList
 
 def decodeUtf8 (bs : List UInt8) : Option String := String.fromUTF8? (ByteArray.mk bs.toArray)
 
@@ -389,7 +395,7 @@ def call (name : String) (args : List Val) : Res :=
          | .error e => .err e
          | .ok d =>
            match xs.mapM (fun v => match v with | .char c => some c | _ => none) with
-           | some cs => .ok (.str (d.intercalate (cs.map String.singleton)))
+           | some cs => .ok (.str (String.ofList (joinCharsL d.toList cs)))
            | none => .err "array should contain only chars")
       | _ => .err "first argument should be an array of chars")
   | "encode_utf8" => arity1 args fun
@@ -419,10 +425,14 @@ def call (name : String) (args : List Val) : Res :=
   | _ => .unmodelled
 
 /-- `print`/`println`/`eprint`/`eprintln`: the text written and the length returned -/
-def printLen (args : List Val) (newline : Bool) : Except String (String × Nat) := do
-  if args.isEmpty then throw "takes atleast one argument. got none"
-  let pieces ← formatBuf args
-  let text := String.join pieces
-  pure (if newline then text ++ "\n" else text, text.utf8ByteSize + (if newline then 1 else 0))
+def printLen (args : List Val) (newline : Bool) : Except String (String × Nat) :=
+  match args with
+  | [] => .error "takes atleast one argument. got none"
+  | _ =>
+    match formatBuf args with
+    | .error e => .error e
+    | .ok pieces =>
+      let text := String.join pieces
+      .ok (if newline then text ++ "\n" else text, text.utf8ByteSize + (if newline then 1 else 0))
 
 end P2sh.Builtins
